@@ -136,6 +136,7 @@ def obj_bind(v):
     sig = {'Auto1': [('a', None, True), ('b', 0, False), ('verbose', False, False)],
            'Auto2': [('a', None, True), ('c', 5, False)],
            'Auto3': [('a', None, True), ('pad', 0, False)],
+           'AutoSet': [('items', None, True)],
            'Plain1': [('a', None, True), ('b', 0, False)],
            'Hand1': [('a', None, True)]}[cls]
     bound = {}
@@ -180,7 +181,7 @@ def obj_repr(v):
 def obj_state(v):
     b = obj_bind(v)
     cls = v['__obj__']
-    keys = {'Auto1': ['a', 'b'], 'Auto2': ['a', 'c'], 'Auto3': ['a', 'pad'], 'Plain1': ['a', 'b'], 'Hand1': ['a']}[cls]
+    keys = {'Auto1': ['a', 'b'], 'Auto2': ['a', 'c'], 'Auto3': ['a', 'pad'], 'AutoSet': ['items'], 'Plain1': ['a', 'b'], 'Hand1': ['a']}[cls]
     return {'__obj__': cls, 'state': {k: term_value(b[k]) for k in keys}}
 
 
@@ -587,6 +588,8 @@ def _tagged(v, path=False):
             b = obj_bind(v)
             parts = {n: _tagged(b[n]) for n, dflt, req in s['args'] if n not in s['ignore'] and not (n in s['dpdv'] and b[n] == dflt)}
             return ['obj', cls, sorted(parts.items())]
+        if cls == 'AutoSet':
+            return ['obj', cls, sorted(_tagged(x) for x in obj_bind(v)['items'])]
         return ['obj', cls, sorted((k, _tagged(x)) for k, x in obj_bind(v).items())]
     if isinstance(v, dict):
         return ['dict', sorted((k, _tagged(x)) for k, x in v.items())]
